@@ -24,6 +24,12 @@ CHECKS = {
     "C06": ("explicit-state BFS over structural histories; every reachable state is an input to definitional oracles, with views/stats held across the whole history",
             "Every canonical state of the three classes reached by a structural alphabet (depth 2 quick / 3 thorough, 6+4+4 initial states) is checked: a twin rebuilt with node/edge views, degree/size stats and a multi-stat created at the initial state and held across all mutations must report the current structure; survivors keep insertion order; degree/size/order (with order=, degree=, weight=), directed in/out/degree and head/tail sizes equal counts over the incidence; asdict/aslist/asnumpy/aspandas/multi (all layouts) agree and follow view order; filterby (7 modes + callable + stat object) and filterby_attr (missing=) on full and filtered views; neighbors (s=1,2), lookup over all subsets, duplicates, isolates, singletons, empty, maximal (strict and not) against set definitions.",
             "bounded depth; numeric equality to 1e-9; tuple edge IDs (merge rename='tuple') exempt from the pandas index comparison because pandas turns them into a MultiIndex"),
+    "C07": ("explicit-state BFS over attributed histories; differential oracle between every reachable state and its copy / pickle / constructor twin under an edit menu applied to either side",
+            "Every canonical state of the three classes reached by attributed alphabets (nested list/dict attribute values, non-monotone explicit IDs, empty edges, isolated nodes; depth 2 quick / 3 thorough) gets three twins (copy(), pickle round trip, constructor of its own class); twin == source; each edit of a 12-24 entry menu applied to the twin leaves the source's complete instance state unchanged and vice versa; nested attribute values reached through copy() are mutated in place on either side without affecting the other; an automatic addition on each side adds a fresh ID without altering existing edges.",
+            "constructor/pickle twins judged on structural edits only; bounded depth and edit menu"),
+    "C08": ("exhaustive enumeration of programs (introspected API surface) x synthesised argument grids x input family; before/after comparison of the complete instance state",
+            "Every public callable of the xgi namespace whose first parameter is a network (105 today, found by introspection, so new functions are included automatically), the class converters, read-only methods, every view method and set operation, and every statistic of the four stats modules with every output method is called on each network of a family of 40 (quick) / 80+ (thorough) structurally diverse inputs of the three classes with up to 12 argument combinations from a name-driven synthesiser (in_place always False); the complete instance state (ordered IDs, members in iteration order, attributes, next automatic ID, frozen flag) must be identical before and after whether the call returns or raises; sets handed out by the call are modified first, so an internal set returned without copying is caught.",
+            "argument combinations capped per function (reported); functions that succeed on no input are listed under not_exercised and not counted as covered; update_uid_counter excluded as documented in-place helper"),
 }
 
 NOT_APPLICABLE = []
